@@ -9,8 +9,11 @@ body are parsed and dispatched as the next request.
 
 Run:  cd /tmp/wa_C07 && PYTHONPATH=/tmp/wa_C07 /venv/bin/python _finding/2/demo.py
 """
+import os as _os
+_TREE_UNDER_TEST = _os.environ.get("GVERIF_REPO") or _os.getcwd()   # the checkout under test (was the auditing agent's scratch worktree)
+
 import sys
-sys.path.insert(0, "/tmp/wa_C07")
+sys.path.insert(0, _TREE_UNDER_TEST)
 import os
 import socket
 import subprocess
@@ -18,7 +21,7 @@ import tempfile
 import time
 
 import gunicorn
-assert gunicorn.__file__.startswith("/tmp/wa_C07/"), gunicorn.__file__
+assert gunicorn.__file__.startswith(_TREE_UNDER_TEST), gunicorn.__file__
 
 # An ordinary application: it reads its input; an I/O error while reading the
 # request body is answered with 400 (Django: UnreadablePostError, werkzeug:
@@ -103,7 +106,7 @@ def main():
     with open(os.path.join(tmp, "c07app2.py"), "w") as f:
         f.write(APP)
     port = free_port()
-    env = dict(os.environ, PYTHONPATH="/tmp/wa_C07" + os.pathsep + tmp)
+    env = dict(os.environ, PYTHONPATH=_TREE_UNDER_TEST + os.pathsep + tmp)
     proc = subprocess.Popen(
         [sys.executable, "-m", "gunicorn", "-k", "gthread", "--threads", "2",
          "--keep-alive", "2", "-b", "127.0.0.1:%d" % port,
